@@ -48,7 +48,7 @@ void cfg_desc(const wcfg_t *c, char *out, size_t n)
 {
     snprintf(out, n, "%s%s%s/%s/%04x%s%s%s%s", ver_name(c->ver), c->cver ? "+c" : "", c->cver ? ver_name(c->cver) : "",
         kx_name(c->kx), c->suite, c->client_auth ? "/cauth" : "", c->early_data == 2 ? (c->early_send ? "/early-off-at-server+0rtt" : "/early-off-at-server") : c->early_data ? (c->early_send ? "/early+0rtt" : "/early") : "",
-        c->resume13 ? "/tick+resumed" : c->tickets == 2 ? "/tick-asked-only" : c->tickets ? "/tick" : "", c->bad_server_cert ? "/badcert" : c->bogus_psk ? "/unknown-psk-offered" : c->hrr ? "/hrr" : "");
+        c->resume13 ? "/tick+resumed" : c->tickets == 2 ? "/tick-asked-only" : c->tickets ? "/tick" : "", c->bad_server_cert ? "/badcert" : c->bad_server_sig ? "/badsig" : c->bogus_psk ? "/unknown-psk-offered" : c->hrr ? "/hrr" : "");
 }
 
 static uint16_t default_suite(int ver, int kx)
@@ -220,6 +220,16 @@ static int load_side_keys(world_t *w, int side)
     if (rc < 0)
     {
         return rc;
+    }
+    if (side == 1 && c->bad_server_sig)
+    {
+        /* a malicious real endpoint: the bytes it sends are not the ones it loaded (the sender never re-checks its unparsedBin) */
+        psX509Cert_t *ic = k->identity ? k->identity->cert : NULL;
+        if (!ic || !ic->unparsedBin || ic->binLen < 64)
+        {
+            return -1;
+        }
+        ic->unparsedBin[ic->binLen - 20] ^= 0x04;
     }
     if (side == 0 && c->bogus_psk)
     {
